@@ -10,6 +10,7 @@ import datetime
 import heapq
 import itertools
 import re
+import sys
 from functools import wraps
 # For warning about deprecation of until and count
 from warnings import warn
@@ -161,10 +162,14 @@ class rrulebase(object):
             start, stop, step = item.start, item.stop, item.step
             if ((step is not None and step <= 0) or
                     (start is not None and start < 0) or
-                    (stop is not None and stop < 0)):
+                    (stop is not None and stop < 0) or
+                    any(x is not None and x > sys.maxsize // 2
+                        for x in (start, stop, step))):
                 # Negative bounds count from the end and a non-positive step
                 # needs list semantics (a zero step is an error): both need
-                # the whole recurrence.
+                # the whole recurrence. So do values near or beyond
+                # sys.maxsize, which islice() does not take (or, for a step
+                # that makes its position counter overflow, mishandles).
                 return list(iter(self))[item]
             else:
                 return list(itertools.islice(self, start, stop, step))
